@@ -21,8 +21,9 @@ func (e *OnlyExpr) Evaluate(engine *Engine, input interface{}, args []*Statement
 		return nil, nil
 	}
 
-	inputSliceType := TypeOfSliceElement(input)
-	results := reflect.MakeSlice(reflect.SliceOf(inputSliceType), 0, 0)
+	// The result is a list of the same type as the input (including a list of
+	// anything, for which TypeOfSliceElement has no element type).
+	results := reflect.MakeSlice(in.Type(), 0, 0)
 
 	condition := args[0]
 	for i := 0; i < in.Len(); i++ {
